@@ -61,6 +61,16 @@ def r1_options_reach_assembler(ctx: Ctx) -> None:
         calls = [c for s in ips[0] for c in calls_in(s) if call_name(c) == "program.assemble_as_patch"]
         ok = len(calls) == 1 and [unparse(a) for a in calls[0].args] == ["args.input_file", "args.output_file", "args.mapping", "args.copier_header"]
         ctx.check(ok, "cli_main[ips]:argument-order", "assemble_as_patch(input, output, mapping, copier_header)")
+    # `-f ips` selects the patch writer, anything else the flat image: the condition each entry point is called under
+    gc = CFG(cli.node)
+    for entry, want in (("program.assemble_as_patch", True), ("program.assemble", False)):
+        sites = [c for c in calls_in(cli.node) if call_name(c) == entry]
+        if len(sites) != 1:
+            raise AnalysisError(f"cli_main: expected one call of {entry}")
+        conds = gc.path_conditions(gc.node_containing(sites[0]), cli.node, keep=["args"])
+        ctx.count("format_selection")
+        ctx.check(any(t.endswith(".format == 'ips'") and pol == want for t, pol in conds), f"cli_main:{entry}:selected-by-format",
+                  f"{entry} runs exactly when the format {'is' if want else 'is not'} ips; conditions found: {sorted(conds)}")
     prog = [c for c in calls_in(cli.node) if call_name(c) == "Program"]
     ctx.check(len(prog) == 1 and unparse(kwarg(prog[0], "dump_symbols")) == "args.dump_symbols", "cli_main:dump_symbols", "passed to Program")
     # the sfc arm's mapping argument lands on assemble's mapping parameter
@@ -136,7 +146,13 @@ def r3_defines_are_integers(ctx: Ctx) -> None:
         if call_name(c) in ("program.assemble", "program.assemble_as_patch"):
             ctx.check(an in g.reachable([0]) and g.node_containing(c) in g.reachable([an]) and an not in g.reachable([g.node_containing(c)]),
                       f"cli_main:-D before {call_name(c)}", "definitions are made before the program is assembled")
-    ctx.count("define_facts", 4)
+    # every given definition is made: the add_symbol sits in a loop over args.defines that runs exactly when definitions were given
+    conds = g.path_conditions(an, cli.node, keep=["args"])
+    bad = [(t, pol) for t, pol in conds if "defines" in t and ((t.endswith(".defines") and not pol) or (t.endswith(".defines is None") and pol))]
+    ctx.check(not bad, "cli_main:-D guard", f"definitions are processed when -D was given (the guard must not be inverted); conditions {sorted(conds)}")
+    loops = [n for n in walk_no_nested(cli.node) if isinstance(n, ast.For) and any(x is adds[0] for x in ast.walk(n))]
+    ctx.check(len(loops) == 1 and unparse(loops[0].iter).endswith(".defines"), "cli_main:-D loop", "every NAME=VALUE given is defined (a loop over args.defines)")
+    ctx.count("define_facts", 6)
 
 
 def r4_one_pipeline(ctx: Ctx) -> None:
@@ -253,4 +269,11 @@ def rm_no_process_lifetime_results(ctx: Ctx) -> None:
     state_rule(ctx)
 
 
-RULES = [r1_options_reach_assembler, r2_mapping_choices_total, r3_defines_are_integers, r4_one_pipeline, r5_symbol_file, r6_copier_header_shift, r7_writers_place_blocks, rb_binding_agreement, rm_no_process_lifetime_results]
+def ru_names_bound(ctx: Ctx) -> None:
+    """a local read but never bound raises NameError for every input that reaches the statement (shared rule, names.py)"""
+    from ..names import names_rule
+
+    names_rule(ctx)
+
+
+RULES = [r1_options_reach_assembler, r2_mapping_choices_total, r3_defines_are_integers, r4_one_pipeline, r5_symbol_file, r6_copier_header_shift, r7_writers_place_blocks, rb_binding_agreement, rm_no_process_lifetime_results, ru_names_bound]
